@@ -6,6 +6,7 @@ from props import dwtfam, c01
 
 ID = 'C02'
 GRAD_MODES = True
+MODE_ALIAS = True
 PROPS_MODULE = 'Props.C02 Props.C02Kernels'
 THEOREMS = ['C02_line_pr', 'C02_line_pr_exact', 'C02_kernel_window', 'C02_level_1d', 'C02_multilevel_1d', 'C02_circular_pr', 'C02_level_1d_per', 'C02_multilevel_1d_per', 'C02_PRcond_lazy', 'C02_level_2d', 'C02_multilevel_2d', 'C02_multilevel_2d_per', 'C02_pywt_kernels', 'C02_error_bound_Z', 'C02_haar_kernel']
 VO = ['theories/Props/C02.vo', 'theories/Props/C02Kernels.vo', 'theories/Props/C01.vo', 'theories/Props/C10.vo', 'theories/Run/RunDwt.vo', 'theories/Run/RunSpec.vo']
@@ -45,8 +46,8 @@ def oracle_run(cfg):
     shp = (cfg['nb'], cfg['C'], cfg['N']) if d1 else (cfg['nb'], cfg['C'], cfg['H'], cfg['W'])
     X = r.standard_normal(shp)
     try:
-        fwd = (DWT1DForward if d1 else DWTForward)(J=J, wave=wn if d1 else c01.wave_arg(cfg, 'dec'), mode=mode)
-        inv = (DWT1DInverse if d1 else DWTInverse)(wave=wn if d1 else c01.wave_arg(cfg, 'rec'), mode=mode)
+        fwd = (DWT1DForward if d1 else DWTForward)(J=J, wave=wn if d1 else c01.wave_arg(cfg, 'dec'), mode=lib_mode(cfg))
+        inv = (DWT1DInverse if d1 else DWTInverse)(wave=wn if d1 else c01.wave_arg(cfg, 'rec'), mode=lib_mode(cfg))
         y = inv(fwd(torch.tensor(X))).numpy()
     except (RuntimeError, ValueError) as e:
         if mode == 'reflect':
